@@ -2189,7 +2189,8 @@ def nval_compare(ctx, jobs):
     evaluate, no cut-offs) against the independent minimax of the rules specification; one process per question with a
     time limit, because a capture tree without cut-offs can be very large"""
     from concurrent.futures import ThreadPoolExecutor
-    NVAL_LIMIT[0] = 6 if ctx.quick else 40
+    NVAL_LIMIT[0] = 6 if ctx.quick else 10
+    jobs = jobs[:100000] if ctx.quick else jobs[:2000]
     with ThreadPoolExecutor(max_workers=14) as ex:
         for (fen, d, want), got in ex.map(nval_one, jobs):
             if got is None:
@@ -2387,7 +2388,7 @@ def session_script(ctx, rng, games):
              lambda: f'go movetime 0 depth {rng.choice([2, 3])}', lambda: f'Go  depth {rng.choice([1, 2])}', lambda: 'IsReady', lambda: 'ISREADY extra words',
              lambda: 'position', lambda: 'hello', lambda: '', lambda: 'UCI', lambda: 'go depth', lambda: 'go depth x', lambda: 'go foo depth 2']
     # commands no GUI may send (they end the process in the engine and in the model alike): compared, not judged
-    malformed = [lambda: 'go depth 2 wtime', lambda: 'position fen', lambda: 'position startpos moves e2e5', lambda: 'position xyz abc']
+    malformed = [lambda: 'go depth 2 movestogo', lambda: 'position fen', lambda: 'position startpos moves e2e5', lambda: 'position xyz abc']
     n = rng.choice([3, 6, 10, 16])
     use_bad = rng.random() < 0.25
     lines = [rng.choice(legal + (malformed if use_bad else []))() for _ in range(n)]
